@@ -50,4 +50,62 @@ mod verif_kani_tzstring {
     #[kani::proof]
     #[kani::stub(parse_signed_hhmmss, st_signed_hhmmss)]
     fn vk_tzstring_rule_time_extended() { let b = [0u8; 1]; let mut c = Cursor::new(&b); check(parse_rule_time_extended(&mut c), -167, 167); }
+
+    // ---- RuleDay::parse over the contract of the integer scanner ----------------------------------------------------------------------
+    // Cursor::read_int::<T> is replaced by a stub that consumes ANY number of bytes and returns ANY value of T (or an error); the
+    // rule-time parsers (checked above) return any i32.  What remains is the structure: which constructor gets which number in which
+    // order, the separators, the default time.
+    struct PRec { magic: u64, n: u8, vals: [u64; 3], time_calls: u8, time_ext: bool, time_res: i32 }
+    static mut PREC: PRec = PRec { magic: 0xC0DE_5EED_D15C_0006, n: 0, vals: [0; 3], time_calls: 0, time_ext: false, time_res: 0 };
+    fn st_read_int<'a: 'a, T: core::str::FromStr<Err = core::num::ParseIntError> + kani::Arbitrary + Copy + Into<u64>>(c: &mut Cursor<'a>) -> Result<T, Error> {
+        let k: usize = kani::any();
+        kani::assume(k <= c.remaining().len());
+        let _ = c.read_exact(k);
+        if kani::any() {
+            let v: T = kani::any();
+            unsafe { let i = PREC.n as usize; if i < 3 { PREC.vals[i] = v.into(); } PREC.n += 1; }
+            Ok(v)
+        } else { Err(Error::InvalidTzString("scan")) }
+    }
+    fn st_rule_time(_c: &mut Cursor) -> Result<i32, Error> {
+        let v: i32 = kani::any();
+        unsafe { PREC.time_calls += 1; PREC.time_ext = false; PREC.time_res = v; }
+        if kani::any() { Ok(v) } else { Err(Error::InvalidTzString("time")) }
+    }
+    fn st_rule_time_ext(_c: &mut Cursor) -> Result<i32, Error> {
+        let v: i32 = kani::any();
+        unsafe { PREC.time_calls += 1; PREC.time_ext = true; PREC.time_res = v; }
+        if kani::any() { Ok(v) } else { Err(Error::InvalidTzString("time")) }
+    }
+
+    // bounded: rule-day texts of at most 8 bytes (only the letter, the separators and the '/' are read here; the digits belong to the stubbed scanner)
+    // fns: RuleDay::parse
+    #[kani::proof]
+    #[kani::unwind(10)]
+    #[kani::stub(Cursor::read_int, st_read_int)]
+    #[kani::stub(parse_rule_time, st_rule_time)]
+    #[kani::stub(parse_rule_time_extended, st_rule_time_ext)]
+    fn vk_tzstring_rule_day_bounded() {
+        let buf: [u8; 8] = kani::any();
+        let len: usize = kani::any();
+        kani::assume(len <= 8);
+        let ext: bool = kani::any();
+        let mut c = Cursor::new(&buf[..len]);
+        let r = RuleDay::parse(&mut c, ext);
+        let (n, vals, tc, text, tres) = unsafe { (PREC.n, PREC.vals, PREC.time_calls, PREC.time_ext, PREC.time_res) };
+        kani::cover!(matches!(r, Ok((RuleDay::MonthWeekday { .. }, _)))); kani::cover!(matches!(r, Ok((RuleDay::Julian1WithoutLeap(_), t)) if t != 7200)); kani::cover!(matches!(r, Ok((RuleDay::Julian0WithLeap(_), 7200))));
+        if let Ok((day, time)) = r {
+            match day {
+                RuleDay::MonthWeekday { month, week, week_day } => {
+                    assert!(len >= 1 && buf[0] == b'M' && n == 3, "Mm.w.d: the letter M and three numbers");
+                    assert!(month as u64 == vals[0] && week as u64 == vals[1] && week_day as u64 == vals[2], "month, week, weekday in the order written");
+                    assert!(month >= 1 && month <= 12 && week >= 1 && week <= 5 && week_day <= 6, "documented ranges");
+                }
+                RuleDay::Julian1WithoutLeap(j) => assert!(len >= 1 && buf[0] == b'J' && n == 1 && j as u64 == vals[0] && j >= 1 && j <= 365, "Jn: one-based day 1..=365"),
+                RuleDay::Julian0WithLeap(j) => assert!((len == 0 || (buf[0] != b'M' && buf[0] != b'J')) && n == 1 && j as u64 == vals[0] && j <= 365, "n: zero-based day 0..=365"),
+            }
+            if tc == 0 { assert!(time == 2 * 3600, "no '/time': 02:00:00"); }
+            else { assert!(tc == 1 && text == ext && time == tres, "'/time' read by the parser the format version asks for"); }
+        }
+    }
 }
